@@ -40,6 +40,18 @@ PROPS = {
         "level_note": "Trusted: Lean kernel, harness+driver, memstore. Faults are sampled in the correspondence run, universal in the theorem.",
         "trusted": CAFS_TRUSTED,
     },
+    "C04": {
+        "sub": "c04",
+        "trivial": r"^(upload keys= |download sel=all => ok files=$)",
+        "timeout_quick": 1200, "timeout_thorough": 3400,
+        "level_text": "Proof: theorems about the model of bundle upload/download metadata flow (entries one-to-one with the uploaded "
+                      "files, index-file batching and reassembly by position for every entries-per-file and arrival order, filtered and "
+                      "single-file downloads, repeated and missing keys), over an abstract content store (C01/C02). Tied to pkg/core by "
+                      "differential uploads/downloads on memstore and localfs with entries-per-file 1,2,3,7,1000.",
+        "level_note": "Trusted: Lean kernel, harness+driver, memstore, yaml.v2 for descriptor encoding (names with YAML-significant "
+                      "characters are exercised, not modelled). Goroutine fan-out is modelled as an arbitrary arrival order.",
+        "trusted": CAFS_TRUSTED + ["gopkg.in/yaml.v2 round-trips bundle entries"],
+    },
     "C21": {
         "sub": "c21",
         "trivial": r"^enc .* ps=$",
